@@ -27,4 +27,13 @@ int good_reassigned(const std::vector<int> &v) {
     else ++it;
     return 0;
 }
+// check order: order_bad_* dereference the iterator in the left operand and compare it with end() only in the right one
+bool order_bad_and(const std::vector<int> &v, std::vector<int>::const_iterator it, int k) { return *it < k && it != v.end(); }
+int order_bad_loop(const std::vector<int> &v, int k) {
+    int c = 0;
+    for (auto it = v.begin(); *it <= k && it != v.end(); ++it) ++c;
+    return c;
+}
+bool order_good_and(const std::vector<int> &v, std::vector<int>::const_iterator it, int k) { return it != v.end() && *it < k; }
+bool order_good_repeat(const std::vector<int> &v, std::vector<int>::const_iterator it, int k) { return (it != v.end() && *it < k) && it != v.end(); }
 }
